@@ -32,6 +32,7 @@ type c04 struct {
 	probeSeq uint32
 	pre      seqx.Pre
 	nEstBy   [NPeers]int
+	noPDR    map[uint64]bool // live sessions (by UP SEID) whose only PDR has been removed
 }
 
 func c04Spec(tier, scenario string) seqx.Spec {
@@ -94,6 +95,12 @@ func (c *c04) Enabled() []seqx.Event {
 	for k := 1; k <= len(c.EstUP); k++ {
 		if c.Holder(k) && c.R.Live[c.SeidOf(k)] != nil && len(c.R.Tx) < 2 {
 			ev = append(ev, seqx.Ev("Report", int64(k)))
+		}
+	}
+	// a session may lose its last PDR before it ends: its other rules must still go when it is released
+	for k := 1; k <= len(c.EstUP); k++ {
+		if c.Holder(k) && c.R.Live[c.SeidOf(k)] != nil && !c.noPDR[c.SeidOf(k)] {
+			ev = append(ev, seqx.Ev("RmPDR", int64(k)))
 		}
 	}
 	for k := range c.R.Tx {
@@ -180,6 +187,7 @@ func (c *c04) Apply(e seqx.Event) seqx.StepResult {
 		}
 		c.R.NewSess(up, cp, c.W.PeerIP(p))
 		c.EstUP[len(c.EstUP)-1] = up
+		delete(c.noPDR, up)
 	case "Del", "DelRaw":
 		s := uint64(e.A[0])
 		if e.Op == "Del" {
@@ -223,6 +231,25 @@ func (c *c04) Apply(e seqx.Event) seqx.StepResult {
 			j.Tag("del-nonlive")
 			c.notFound(j, "Del", s, ms[0], sd0, dp0, o)
 		}
+	case "RmPDR":
+		s := c.SeidOf(int(e.A[0]))
+		x := c.R.Live[s]
+		others0 := c.W.D.DumpOf(s, true)
+		o = c.W.Send(x.Peer, smf.Mod(c.NextSeq(x.Peer), s, "", smf.RuleOp{Verb: 'R', Kind: 'P', ID: 1, MInfo: -1}))
+		if j.Crashed(c.W, o) {
+			break
+		}
+		ms := j.OnlyTo(o, x.Peer, "RmPDR")
+		if len(ms) != 1 || ms[0].Type != smf.MModRsp || ms[0].Cause() != smf.CauseAccepted || ms[0].SEID != x.CP {
+			j.Fail("mod-live-wrong-answer", "Remove PDR on live session %#x: %v, want an accepted response with CP SEID %#x", s, ms, x.CP)
+		}
+		if c.W.D.DumpOf(s, true) != others0 {
+			j.Fail("mod-touches-others", "Remove PDR on session %#x changed rules of other sessions", s)
+		}
+		if c.noPDR == nil {
+			c.noPDR = map[uint64]bool{}
+		}
+		c.noPDR[s] = true
 	case "Report":
 		s := c.SeidOf(int(e.A[0]))
 		x := c.R.Live[s]
